@@ -170,6 +170,9 @@ type Target struct {
 	// returned: the value (Val, *Res or nil), fresh ("-" if the API has no such flag, else "0"/"1") and the error.
 	Invoke func(c *Call, fn func() (any, error)) (v any, fresh string, err error)
 	Inject func(key int, res *Res) // nil: not supported
+	// NotFoundErr is the user's "no such row" error (nil: ErrNotFound): what an ek=5 loader returns and what a caller
+	// of a key with a cached not-found placeholder gets
+	NotFoundErr error
 	// Corrupt (nil: not supported) puts an entry that cannot be decoded under the key before the calls start (cacheNode:
 	// a redis value that is not JSON - processCache deletes it and reports not-found, the row is loaded afresh)
 	Corrupt func(key int)
@@ -334,6 +337,9 @@ func RunSection(cfg verifh.Cfg, ops []string, mk func(cfg verifh.Cfg) Target) []
 			var e0 error
 			if c.serr {
 				e0 = mkErr(c)
+				if c.ek == 5 && tg.NotFoundErr != nil {
+					e0 = tg.NotFoundErr
+				}
 				mu.Lock()
 				c.errObj = e0
 				mu.Unlock()
@@ -408,7 +414,7 @@ func RunSection(cfg verifh.Cfg, ops []string, mk func(cfg verifh.Cfg) Target) []
 				default:
 					c.val = "bad"
 				}
-				if err == ErrNotFound && mode == "rm" {
+				if (err == ErrNotFound || (tg.NotFoundErr != nil && err == tg.NotFoundErr)) && mode == "rm" {
 					// the cached not-found placeholder: name the execution that reported not-found for this key
 					c.val = "800000"
 					for _, d := range calls {
@@ -582,6 +588,9 @@ func errName(err error, v any, calls []*Call) string {
 
 // ---------------------------------------------------------------- generator
 
+// nodeUser: the users of cacheNode.doTake (cacheNode itself, sqlc's CachedConn on top of it): same generator classes.
+func nodeUser(via string) bool { return via == "cacheNode.Take" || via == "sqlc.QueryRow" }
+
 // Gen generates nsec sections. via == "": the three objects of core/syncx (modes sf / lc / rm with Inject, Close,
 // panics and delayed flight entry); via != "": ResourceManager-like sections (mode=rm via=<user>) for a user of
 // SingleFlight whose observable behaviour is "load once per key, everyone gets the leader's value".
@@ -639,7 +648,7 @@ func Gen(r *verifh.Rng, nsec int, via string) []verifh.Section {
 				}
 			}
 		}
-		if via == "cacheNode.Take" && r.Chance(1, 4) {
+		if nodeUser(via) && r.Chance(1, 4) {
 			// entries that cannot be decoded are in the cache before the calls start (processCache: delete, reload)
 			for ob := 0; ob < objs; ob++ {
 				for key := 0; key < k; key++ {
@@ -703,7 +712,7 @@ func Gen(r *verifh.Rng, nsec int, via string) []verifh.Section {
 					}
 				}
 				ep := -1
-				if via == "cacheNode.Take" {
+				if nodeUser(via) {
 					// all four public entry points into doTake: 0 Take, 1 TakeWithExpire, 2 TakeCtx, 3 TakeWithExpireCtx
 					ep = r.Intn(4)
 					ex = ep % 2
@@ -721,7 +730,7 @@ func Gen(r *verifh.Rng, nsec int, via string) []verifh.Section {
 					if mode != "rm" && r.Chance(1, 5) {
 						ek = 4
 					}
-					if via == "cacheNode.Take" && r.Chance(1, 3) {
+					if nodeUser(via) && r.Chance(1, 3) {
 						// the loader reports "no such row": negative caching (setCacheWithNotFound, the placeholder)
 						ek = 5
 					}
@@ -746,7 +755,7 @@ func Gen(r *verifh.Rng, nsec int, via string) []verifh.Section {
 			// the constructor's options: 0 none, 1 / 2 present, 3 zero-valued, 4 negative, 5 empty / swapped order (see the targets)
 			cfg += fmt.Sprintf(" opt=%d", r.Pick(0, 0, 1, 2, 3, 4, 5))
 		}
-		if via == "cacheNode.Take" {
+		if nodeUser(via) {
 			// dst=1: every goroutine takes into ONE destination variable, call after call, and overwrites it as soon as a
 			// Take has returned (a caller may do with its own variable what it likes once its call is over): what a
 			// sharer of the flight is handed must be a snapshot made inside the execution, not the leader's memory
